@@ -132,6 +132,11 @@ func structFields(P *Program) map[string]map[string]string {
 				}
 				m[st.Field(i).Name()] = types.TypeString(st.Field(i).Type(), func(p *types.Package) string { return p.Name() })
 			}
+			var order []string
+			for i := 0; i < st.NumFields(); i++ {
+				order = append(order, st.Field(i).Name())
+			}
+			m["#order"] = strings.Join(order, ",")
 			out[strings.TrimPrefix(strings.TrimPrefix(path, modPath), "/")+"|"+n] = m
 		}
 	}
@@ -246,12 +251,51 @@ func (P *Program) renameMap() *renameInfo {
 		if st == nil {
 			continue
 		}
+		// same field types in the same order: renamed fields keep their position
+		positional := map[string]string{}
+		bo, co := strings.Split(bf["#order"], ","), strings.Split(cf["#order"], ",")
+		if bf["#order"] != "" && len(bo) == len(co) {
+			same := true
+			for i := range bo {
+				if bo[i] == "_" || co[i] == "_" {
+					if bo[i] != co[i] {
+						same = false
+					}
+					continue
+				}
+				if bf[bo[i]] != cf[co[i]] {
+					same = false
+				}
+			}
+			if same {
+				for i := range bo {
+					positional[bo[i]] = co[i]
+				}
+			}
+		}
 		for name, typ := range bf {
+			if strings.HasPrefix(name, "#") {
+				continue
+			}
 			if _, ok := cf[name]; ok {
 				continue
 			}
+			if now, ok := positional[name]; ok && now != name {
+				if _, old := bf[now]; !old {
+					for i := 0; i < st.NumFields(); i++ {
+						if st.Field(i).Name() == now {
+							canonFields[st.Field(i).Origin()] = name
+							ri.notes = append(ri.notes, fmt.Sprintf("field %s.%s is now %s (same position and type)", parts[1], name, now))
+						}
+					}
+					continue
+				}
+			}
 			var cands []string
 			for n2, t2 := range cf {
+				if strings.HasPrefix(n2, "#") {
+					continue
+				}
 				if _, old := bf[n2]; !old && t2 == typ {
 					cands = append(cands, n2)
 				}
